@@ -92,8 +92,9 @@ theorem C18_argless_escape_blocked (st : St) (h : st.xmlEscapeCharsDecoder = tru
     (h' : st.xmlEscapeChars = false) : step st (.xmlEscapeChars none) = st := by
   cases st; simp_all [step, tog]
 
-/-- every `Option Bool` call form is one of: the eleven pure toggles, the two escaping
-    switches, DisableTrimWhiteSpace — so the theorems above cover all argument-less forms -/
+/-- the call forms that are not `explicit` are exactly the argument-less forms of the eleven pure
+    toggles and of the two escaping switches (covered by the theorems above), and
+    SetGlobalKeyMapPrefix with an argument that is not one character -/
 theorem C18_argless_cover (c : Call) (h : explicit c = false) :
     (∃ t : Toggle, c = t.call none) ∨ c = .xmlEscapeChars none ∨ c = .xmlEscapeCharsDecoder none
       ∨ ∃ s, c = .setGlobalKeyMapPrefix s := by
@@ -116,6 +117,11 @@ theorem C18_argless_cover (c : Call) (h : explicit c = false) :
   | xmlEscapeChars b => cases b <;> simp [explicit] at h; exact .inr (.inl rfl)
   | xmlEscapeCharsDecoder b => cases b <;> simp [explicit] at h; exact .inr (.inr (.inl rfl))
   | _ => simp [explicit] at h
+
+/-- XMLEscapeCharsDecoder() twice does not restore the whole state: it clears the encoder switch -/
+theorem C18_argless_decoder_twice_clears_encoder :
+    run (run dflt [.xmlEscapeChars (some true)]) [.xmlEscapeCharsDecoder none, .xmlEscapeCharsDecoder none]
+      ≠ run dflt [.xmlEscapeChars (some true)] := by decide
 
 /-- DisableTrimWhiteSpace() disables (it does not toggle) -/
 theorem C18_argless_disable_trim (st : St) :
@@ -204,11 +210,12 @@ theorem C18_restore (calls : List Call) (h : punctPrefixes calls = true) :
 theorem C18_restore_needs_punct : ∃ calls, run (run dflt calls) restoreCalls ≠ dflt :=
   ⟨[.setGlobalKeyMapPrefix ['t']], by decide⟩
 
-/-- the same for an empty prefix (the keys lose their first character for good) … -/
+/-- the same for an empty prefix: the keys lose their first character ("text"), and the restore
+    then rewrites every 't' ("#ex#") … -/
 theorem C18_restore_needs_nonempty :
     run (run dflt [.setGlobalKeyMapPrefix []]) restoreCalls ≠ dflt := by decide
 
-/-- … and for a two-character prefix ("##text" is rewritten to "text"-less "####text"-like keys) -/
+/-- … and for a two-character prefix: "##text" stays "##text" under SetGlobalKeyMapPrefix("#") -/
 theorem C18_restore_needs_single :
     run (run dflt [.setGlobalKeyMapPrefix ['#', '#']]) restoreCalls ≠ dflt := by decide
 
@@ -315,8 +322,7 @@ example : run dflt sampleHistory ≠ dflt := by decide
 example : run (run dflt sampleHistory) restoreCalls = dflt := by decide
 example : run (run dflt sampleHistory) restoreCalls = dflt := C18_restore _ (by decide)
 
-/-- the order of the two escaping restores matters: encoder first leaves the encoder switch … off
-    here too, but the decoder switch must be cleared before the encoder one can be set -/
+/-- while the decoder switch is on, XMLEscapeChars(true) is ignored -/
 example : (run (run dflt [.xmlEscapeCharsDecoder none]) [.xmlEscapeChars (some true)]).xmlEscapeChars
     = false := by decide
 
